@@ -852,3 +852,11 @@ func (o Outcome) Root(v ssa.Value) ssa.Value {
 	}
 	return o.st.Root(v)
 }
+
+// ConstIntOf returns the integer an abstract constant denotes.
+func ConstIntOf(a AVal) (int64, bool) {
+	if a.K != AConst || a.C == nil || a.C.Kind() != constant.Int {
+		return 0, false
+	}
+	return constant.Int64Val(a.C)
+}
